@@ -219,7 +219,12 @@ impl<'a> Gen<'a> {
             *self.rng.pick(&[Style::Words, Style::Words, Style::Kv, Style::Numbers])
         };
         if self.rng.chance(1, 2) {
-            let n = self.fresh_name();
+            // names need not be unique: now and then reuse one that already exists
+            let n = if self.next_name > 0 && self.rng.chance(1, 6) {
+                format!("n{}", self.rng.range(1, self.next_name))
+            } else {
+                self.fresh_name()
+            };
             b.attrs.push(("name".into(), n));
         }
         let with_children = cfg.nesting && depth == 0 && !wrapped && self.rng.chance(1, 6);
@@ -306,6 +311,10 @@ impl<'a> Gen<'a> {
         }
         if clean {
             self.repair_line_count(&mut b);
+        }
+        // the order in which attributes are written carries no meaning
+        if self.rng.chance(1, 2) {
+            self.rng.shuffle(&mut b.attrs);
         }
         b
     }
